@@ -17,7 +17,7 @@ PROP = {
     "assumptions": ["atomic, durable Commit of the database (a crash sees the old or the new snapshot, never a torn one)",
                     "SIGKILL is simulated in-process: the old incarnation's later effects are discarded, not prevented",
                     "engine-side hypothesis ReachO: discharged for arch v2 by Props/EndToEnd (hypothesis left: NoEmptyAckCall, checked on every "
-                    "funnel run); for v1 it is what C04_v1_* establish"],
+                    "funnel run), and for v1 without residue (C03_v1_engine_feeds_connector)"],
 }
 
 META = {
@@ -32,7 +32,8 @@ META = {
             "M3 needs nothing else, for any number of crashes and restarts), C03_v2_composed_crash_safe, C03_composed_history_crash_safe; the "
             "one engine-side hypothesis left is NoEmptyAckCall (no Source.Ack call with an empty position list), which the funnel job checks on "
             "every implementation run (the source fake flags such a call; the real connector.Source.Ack would index p[len(p)-1]). For the v1 "
-            "engine ReachO remains the hypothesis that C04_v1_ack_sequence_is_prefix establishes. Torn DB writes and kill timing inside one store call "
+            "engine (one position per Source.Ack call, so no call is empty) nothing is left: C03_v1_engine_feeds_connector, "
+            "C03_v1_composed_crash_safe from C04_v1_ack_sequence_is_prefix. Torn DB writes and kill timing inside one store call "
             "are the store's contract. Needs F1 fixed (otherwise the plugin is told more than the store holds).",
     "technique": "Lean 4 invariant proofs (every state = crash point) + snapshot-and-restart correspondence against the real code",
 }
